@@ -745,6 +745,18 @@ def make_met(P):
             ev.append({"act": "inv", "what": "rpe_left_invariance_reference", "ulps": diff_ulps(a, c)})
             for x, w in ((a, "rpe"), (b, "rpe left est"), (c, "rpe left ref")):
                 ev.append(order_event(x, etype, eps, w))
+            if P.get("dist"):
+                # the same invariance under distance pairing (pairs chosen by path length, which a fixed left factor
+                # does not change); both the stride and the all-pairs selection, pairing on either trajectory
+                for al2 in (False, True):
+                    for rp in (False, True):
+                        dk = dict(associate="distance", delta=P["dist"], rtol=0.5, all=al2, rpair=rp)
+                        try:
+                            a2, b2, c2 = rpe(r, e, **dk), rpe(r, G @ e, **dk), rpe(G @ r, e, **dk)
+                        except AssertionError:
+                            continue    # no pose pair at that path distance
+                        ev.append({"act": "inv", "what": "rpe_left_invariance_estimate", "ulps": diff_ulps(a2, b2)})
+                        ev.append({"act": "inv", "what": "rpe_left_invariance_reference", "ulps": diff_ulps(a2, c2)})
     except Exception as ex:
         return [raised(cfg, ex)]
     return [with_nev(cfg, ev)]
